@@ -75,7 +75,7 @@ def main():
     ap.add_argument("filters", nargs="*")
     a = ap.parse_args()
     mutants = []
-    for d in sorted(glob.glob(os.path.join(HERE, "seeded", "C*-m*"))):
+    for d in sorted(glob.glob(os.path.join(HERE, "seeded", "C[0-9][0-9]-*"))):
         name = os.path.basename(d)
         mutants.append((name, "diff", os.path.join(d, "patch.diff"), False, [name[:3]]))
     for n, checks in REVERSED_FIXES.items():
